@@ -302,6 +302,28 @@ func runC02(c *Ctx) error {
 				if rng.Intn(4) == 0 {
 					items = append(items, items[0]) // duplicate
 				}
+				if rng.Intn(3) == 0 {
+					// two DIFFERENT items whose root and height, written one after the other, read the same:
+					// (…ab13, 3) and (…ab1, 33). Each item has its own verdict; nothing may be shared between them.
+					for try := 0; try < 20; try++ {
+						r := &t.rows[rng.Intn(len(t.rows))]
+						last := r.Merkle[len(r.Merkle)-1]
+						if last < '1' || last > '9' || r.Height < 0 {
+							continue
+						}
+						h2, err := strconv.ParseInt(string(last)+strconv.FormatInt(r.Height, 10), 10, 64)
+						if err != nil || h2 > 2147483647 {
+							continue
+						}
+						a, b := fmt.Sprintf("%s:%d", r.Merkle, r.Height), fmt.Sprintf("%s:%d", r.Merkle[:len(r.Merkle)-1], h2)
+						if rng.Intn(2) == 0 {
+							a, b = b, a
+						}
+						items = append(items, a, b)
+						c.R.Count("item pair: root and height concatenate to the same text", 1)
+						break
+					}
+				}
 				op := fmt.Sprintf("verify %d %s", excess, strings.Join(items, " "))
 				before := tableDigest(ci)
 				out, err := both(c, ci, l, name, ctx, op)
@@ -1128,6 +1150,7 @@ func runC04(c *Ctx) error {
 				}
 			}
 			c.R.Count("ancestors-pairs", pairs)
+			c04CaseVariants(c, ci, t, rng, name, ops)
 			// common ancestor
 			for q := 0; q < 25; q++ {
 				k := 2 + rng.Intn(2)
@@ -1426,5 +1449,57 @@ func c08PageCheck(c *Ctx, t *tree, name string, ctx []string, op string, bs int,
 	}
 	if out != want {
 		c.R.Fail(lib.Failure{Case: name, Ops: append(append([]string{}, ctx...), op), What: "page for a given starting key", Expected: want, Observed: out, Signature: "c08-key"})
+	}
+}
+
+// c04CaseVariants (oracle only; the model is not asked, its hashes are values, not spellings): the same stored hashes
+// written in upper or mixed case. Whether such a spelling names the stored header or an unknown one is the
+// implementation's choice — but it has to be ONE choice: the answer is either an error / not-found, or exactly the
+// answer to the canonical spelling. A different 200 answer is a wrong answer about the stored chain.
+func c04CaseVariants(c *Ctx, ci *ChainImpl, t *tree, rng *rand.Rand, name string, ops []string) {
+	mixed := func(h string) string {
+		b := []byte(h)
+		for i := range b {
+			if i%3 == 0 && b[i] >= 'a' && b[i] <= 'f' {
+				b[i] -= 'a' - 'A'
+			}
+		}
+		return string(b)
+	}
+	spell := []func(string) string{strings.ToUpper, mixed}
+	done := 0
+	for try := 0; try < 400 && done < 6; try++ {
+		h, a := t.rows[rng.Intn(len(t.rows))], t.rows[rng.Intn(len(t.rows))]
+		if h.Hash == a.Hash || !t.isAncestor(a.Hash, h.Hash) || h.Height-a.Height < 2 || a.Height == 0 && rng.Intn(3) != 0 {
+			continue
+		}
+		if strings.ToUpper(h.Hash) == h.Hash || strings.ToUpper(a.Hash) == a.Hash {
+			continue
+		}
+		done++
+		canon := ci.Op(fmt.Sprintf("ancestors %s %s", h.Hash, a.Hash))
+		for _, f := range spell {
+			for _, v := range [][2]string{{f(h.Hash), a.Hash}, {h.Hash, f(a.Hash)}, {f(h.Hash), f(a.Hash)}} {
+				op := fmt.Sprintf("ancestors %s %s", v[0], v[1])
+				out := ci.Op(op)
+				c.R.OracleChecked++
+				c.R.Count("ancestors with a case variant of a stored hash", 1)
+				if out != canon && !strings.HasPrefix(out, "err:") {
+					c.R.Fail(lib.Failure{Case: name, Ops: append(append([]string{}, ops...), op),
+						What:     "ancestors asked with an upper/mixed-case spelling of stored hashes is answered with a path that is neither the answer to the canonical spelling nor an error",
+						Expected: canon + "  (or err:…)", Observed: out, Signature: "c04-case-variant"})
+				}
+			}
+		}
+		canonS := ci.Op("state " + h.Hash)
+		for _, f := range spell {
+			op := "state " + f(h.Hash)
+			out := ci.Op(op)
+			c.R.OracleChecked++
+			if out != canonS && out != "not-found" && !strings.HasPrefix(out, "err:") {
+				c.R.Fail(lib.Failure{Case: name, Ops: append(append([]string{}, ops...), op), What: "header by a case variant of a stored hash is neither the stored row nor not-found",
+					Expected: canonS + "  (or not-found)", Observed: out, Signature: "c04-case-variant"})
+			}
+		}
 	}
 }
